@@ -8,6 +8,7 @@ CONSTANTS Weights = {50, 100}
  PaySenders <- McPlainOnly
  PayFields = {"gasPrice"}
  GpFields = {"gasPrice"}
+ MaxOver = 3
  BoxCfgs <- McPlainOnly
  Kinds = {}
  ReconfCfgs <- McNegCfgs
